@@ -22,10 +22,11 @@ from fractions import Fraction
 sys.set_int_max_str_digits(0)  # the harness itself prints huge ints; the implementation subprocess keeps the default
 
 from common import (Check, coq_bad_indices, run_impl, standard_proof_step, TRUSTED_COMMON, ROOT)
-from coqterm import cZ, cstr, cbool, copt, clist, cbytes
+from coqterm import cZ, cstr, cbool, copt, clist, cbytes, cfloat_hex
 
 IMPORTS = ("From XV Require Import Base.Str Base.Eqb Model.ConvBool Model.ConvInt Model.ConvBytes Model.ConvDecimal "
-           "Model.ConvQName Model.ConvFloat Model.ConvEnum Model.ConvFactory Model.ConvAll Model.ConvGuards Model.ConvCorr Spec.XsdPrims.")
+           "Model.ConvQName Model.ConvFloat Model.ConvEnum Model.ConvFactory Model.ConvAll Model.ConvDataType Model.ConvGuards Model.ConvCorr "
+           "Spec.XsdPrims Spec.XsdDates.\nFrom Coq Require Import PrimFloat.")
 WS = " \t\n\r"
 PYWS = "\x0b\x0c\x1c\x1d\x1e\x1f\x85\xa0      　"
 LAX = "+-_ .eE0159١٢２² \t\n\x1c\xa0"
@@ -445,6 +446,43 @@ ENUM_STRINGS = ["a", "b c", " b   c ", "b\tc", "x  y", "x y", "d", "", " ", "1",
                 "a  b", "nope", "1 2 3", "\xa0a\xa0"]
 
 FACTORY_ENUMS = [ENUMS[0], ENUMS[1], ENUMS[2], ENUMS[3]]
+def g_period_sp(r):
+    """an XSD g* spelling: (Spec.XsdDates.period_sp term, literal)"""
+    def year():
+        k = r.random()
+        ds = ("0000" if k < 0.3 else "%04d" % r.choice([1, 4, 99, 999, 2000, 9999]) if k < 0.7 else str(r.randint(10000, 10 ** r.randint(5, 12))))
+        neg = r.random() < 0.3
+        return ("-" if neg else "") + ds, f"(mk_year_sp {cbool(neg)} {cstr(ds)})"
+    k = r.random()
+    if k < 0.4:
+        tz, tzt = "", "TzNone"
+    elif k < 0.6:
+        tz, tzt = "Z", "TzZ"
+    else:
+        neg, hh, mm = r.random() < 0.5, r.randint(0, 13), r.randint(0, 59)
+        if r.random() < 0.2:
+            hh, mm = 14, 0
+        tz, tzt = ("-" if neg else "+") + "%02d:%02d" % (hh, mm), f"(TzOff {cbool(neg)} {cZ(hh)} {cZ(mm)})"
+    shape = r.randrange(5)
+    mo, d = r.randint(1, 12), r.randint(1, 28)
+    if shape == 0:
+        return f"(GDay {cZ(d)} {tzt})", "---%02d" % d + tz
+    if shape == 1:
+        return f"(GMonth {cZ(mo)} {tzt})", "--%02d" % mo + tz
+    if shape == 2:
+        return f"(GMonthDay {cZ(mo)} {cZ(d)} {tzt})", "--%02d-%02d" % (mo, d) + tz
+    ys, yt = year()
+    if shape == 3:
+        return f"(GYear {yt} {tzt})", ys + tz
+    return f"(GYearMonth {yt} {cZ(mo)} {tzt})", ys + "-%02d" % mo + tz
+
+
+FV_OTHERS = [("bool", {"t": "bool", "v": True}), ("bool", {"t": "bool", "v": False}), ("str", {"t": "str", "v": "x"}), ("str", {"t": "str", "v": ""}),
+             ("Decimal", {"t": "Decimal", "v": [0, "150", -2]}), ("Decimal", {"t": "Decimal", "v": [1, "7", 3]}), ("QName", {"t": "QName", "v": "{urn:a}b"}),
+             ("bytes", {"t": "bytes", "v": [1, 2]}), ("XmlHexBinary", {"t": "XmlHexBinary", "v": [1, 2]}), ("XmlBase64Binary", {"t": "XmlBase64Binary", "v": [1]}),
+             ("XmlDate", {"t": "XmlDate", "v": "2002-01-02"}), ("XmlTime", {"t": "XmlTime", "v": "12:00:00Z"}), ("XmlDateTime", {"t": "XmlDateTime", "v": "2002-01-02T12:00:00"}),
+             ("XmlDuration", {"t": "XmlDuration", "v": "P1Y2M"}), ("date", {"t": "date", "v": "2020-01-02"}), ("Unreg0", {"t": "Unreg0", "v": None})]
+
 DT_FORMATS = {
     "date": ["%Y-%m-%d", "%d/%m/%Y", "%Y%m%d", "%Y-%j"],
     "time": ["%H:%M:%S", "%H:%M:%S.%f", "%H%M%S", "%I:%M:%S %p"],
@@ -693,6 +731,14 @@ def run(ck: Check):
                 if k == 7:
                     op["ns_map"] = m
                 add(op, kind="enum_ser", members=members, j=j, m=m)
+
+    # ---------------- DataType.from_value (the datatype written as xsi:type)
+    fixed_p = [("(GYear (mk_year_sp false [48;48;48;48]%N) TzNone)", "0000"), ("(GYearMonth (mk_year_sp false [48;48;48;48]%N) (5)%Z TzNone)", "0000-05"),
+               ("(GYear (mk_year_sp true [48;48;48;49]%N) TzZ)", "-0001Z")]
+    for term, lex in fixed_p + [g_period_sp(r) for _ in range(60 * N)]:
+        add({"op": "from_value", "v": {"t": "XmlPeriod", "v": ws(r) + lex + ws(r)}}, kind="fv_period", sp=term, lex=lex)
+    for tname, v in FV_OTHERS:
+        add({"op": "from_value", "v": v}, kind="fv_other", tname=tname)
 
     # ---------------- date / time / datetime with strftime formats (through the real converter only)
     for kind, fmts in DT_FORMATS.items():
@@ -1117,6 +1163,45 @@ def run(ck: Check):
                 fail("enum-str-value-whitespace-collision", what, {"op": it[1], "impl": it[2]})
             else:
                 fail("enum-roundtrip", what, {"op": it[1], "impl": it[2]})
+
+        # ---------------- DataType.from_value
+        t_fv = "fv_input * str"
+        items = [it for it in items_of("float_datatype") if "ok" in it[2]]
+        terms = [f"(FvFloat {cfloat_hex(it[3]['x'])}, {cstr(it[2]['ok'])})" for it in items]
+        for it in run_pred("agree_fv_float", t_fv, "agree_from_value", items, terms):
+            fail("corr-from-value", f"model and implementation disagree on DataType.from_value({it[3]['x']!r}) = {it[2]['ok']}", {"op": it[1], "impl": it[2]})
+        items = [it for it in items_of("int_datatype") if "ok" in it[2]]
+        terms = [f"(FvInt {hexZ(it[3]['z'])}, {cstr(it[2]['ok'])})" for it in items]
+        for it in run_pred("agree_fv_int", t_fv, "agree_from_value", items, terms):
+            fail("corr-from-value", f"model and implementation disagree on DataType.from_value({it[3]['z']}) = {it[2]['ok']}", {"op": it[1], "impl": it[2]})
+        items = [it for it in items_of("fv_other") if "ok" in it[2]]
+        terms = [f"(FvOther {cstr(it[3]['tname'])}, {cstr(it[2]['ok'])})" for it in items]
+        for it in run_pred("agree_fv_other", t_fv, "agree_from_value", items, terms):
+            fail("corr-from-value", f"model and implementation disagree on DataType.from_value({it[1]['v']}) = {it[2]['ok']}", {"op": it[1], "impl": it[2]})
+        for it in items_of("fv_period") + items_of("fv_other"):
+            if "ok" not in it[2]:
+                fail("from-value-error", f"DataType.from_value({it[1]['v']}) -> {it[2]}", {"op": it[1], "impl": it[2]})
+        items = [it for it in items_of("fv_period") if "ok" in it[2]]
+        terms = [f"(FvPeriod {copt(it[2]['ymd'][0], cZ)} {copt(it[2]['ymd'][1], cZ)} {copt(it[2]['ymd'][2], cZ)}, {cstr(it[2]['ok'])})" for it in items]
+        distinct |= {("fv_period", it[3]["lex"]) for it in items}
+        corr_bad = run_pred("agree_fv_period", t_fv, "agree_from_value", items, terms)
+        for it in corr_bad:
+            fail("corr-from-value", f"model and implementation disagree on DataType.from_value(XmlPeriod({it[3]['lex']!r})) = {it[2]['ok']} (components {it[2]['ymd']})", {"op": it[1], "impl": it[2]})
+        terms = [f"({it[3]['sp']}, {cstr(it[2]['ok'])})" for it in items]
+        bad = multi("fv_period_lex", "period_sp * str", ["oracle_period_datatype", "guard_period_sp"], items, terms)
+        for it in bad["oracle_period_datatype"]:
+            fail("from-value-datatype-does-not-contain-value", f"DataType.from_value(XmlPeriod({it[3]['lex']!r})) = {it[2]['ok']}, whose lexical space does not contain {it[2].get('ser')!r}", {"op": it[1], "impl": it[2]})
+        for it in bad["guard_period_sp"][:1]:
+            fail("harness-generator-invalid-spelling", f"generator produced a non-wf g* spelling {it[3]['lex']!r}", {"op": it[1]})
+        for it in items:
+            if it[2].get("ser") != it[3]["lex"]:
+                fail("period-serialized-form-changed", f"XmlPeriod({it[1]['v']['v']!r}) serializes to {it[2].get('ser')!r}", {"op": it[1], "impl": it[2]})
+        items = [it for it in items_of("fv_other") + items_of("int_datatype") + items_of("float_datatype") if "ok" in it[2] and "ser" in it[2]]
+        terms = [f"({cstr(it[2]['ok'])}, {cstr(it[2]['ser'])})" for it in items]
+        for it in run_pred("fv_lexical", "str * str", "oracle_from_value_lexical", items, terms):
+            if it[2]["ok"] == "DECIMAL" and it[2]["ser"] in ("INF", "-INF", "NaN"):
+                continue
+            fail("from-value-datatype-does-not-contain-value", f"DataType.from_value({it[1]['v']}) = {it[2]['ok']}, whose lexical space does not contain {it[2]['ser']!r}", {"op": it[1], "impl": it[2]})
 
         # ---------------- date / time / datetime with formats: oracles on the implementation only
         for it in items_of("dt_fmt"):
